@@ -770,7 +770,8 @@ def k11_input_gate(core, rep):
             if 'value' in ci.methods:
                 for sub in [x for x in ast.walk(ci.methods['value']) if isinstance(x, ast.Subscript) and attr_text(x.value) and attr_text(x.value).startswith('self.')]:
                     txt = unparse(sub)
-                    tried = [t for t in ast.walk(m) if isinstance(t, ast.Try) and any(unparse(x) == txt for b in t.body for x in ast.walk(b))
+                    norm = lambda u: u.replace('.__members__[', '[')          # E.__members__[k] and E[k] are the same lookup
+                    tried = [t for t in ast.walk(m) if isinstance(t, ast.Try) and any(norm(unparse(x)) == norm(txt) for b in t.body for x in ast.walk(b))
                              and all(len(h.body) == 1 and isinstance(h.body[0], ast.Return) and _const(h.body[0].value, False) for h in t.handlers)]
                     rep.ob('K11c', f'{name}.valid/tries:{txt}', bool(tried),
                            f'{name}.value() performs the lookup {txt}, which can fail, but {name}.valid() does not try it: valid() and value() disagree', f'{ci.rel}:{m.lineno}')
@@ -1078,32 +1079,14 @@ def k21_typed_values(core, rep):
                 table[cl] = made[0] if made else None
     want = {'StringInput': 'StringField', 'SSNInput': 'StringField', 'BooleanInput': 'BooleanField', 'IntegerInput': 'IntegerField',
             'FloatInput': 'FloatField', 'EnumInput': 'EnumField'}
-    # derive the value type of each input class from inputs.py
     def value_type(cls):
-        c, m = core.classes.find_method(cls, 'value')
-        if m is None:
-            return None
-        kinds = set()
-        for r in ast.walk(m):
-            if isinstance(r, ast.Return) and r.value is not None:
-                v = r.value
-                if isinstance(v, ast.Constant):
-                    kinds.add(type(v.value).__name__)
-                elif isinstance(v, ast.Call) and isinstance(v.func, ast.Name) and v.func.id in ('int', 'float', 'str', 'bool'):
-                    kinds.add(v.func.id)
-                elif isinstance(v, ast.Call) and call_name(v) in ('strip', 'replace', 'lower', 'upper'):
-                    kinds.add('str')
-                elif isinstance(v, ast.Subscript) and 'enum' in unparse(v.value):
-                    kinds.add('enum')
-                elif isinstance(v, ast.Name):
-                    kinds.add('var')
-        return kinds
+        return input_value_kinds(core, cls)
     field_type = {'StringField': {'str'}, 'BooleanField': {'bool'}, 'IntegerField': {'int'}, 'FloatField': {'float'}, 'EnumField': {'enum', 'NoneType'}}
     for cl, fld in want.items():
         rep.ob('K21d', f'mirror/{cl}', table.get(cl) == fld, f'InputForm mirrors {cl} with {table.get(cl)} instead of {fld}', _w(f))
         vt = value_type(cl)
         if vt is not None:
-            vt2 = {x for x in vt if x != 'var'}
+            vt2 = set(vt)
             ok = vt2 <= field_type[fld] or (cl == 'FloatInput' and vt2 <= {'float'}) or (cl == 'SSNInput' and vt2 <= {'str'})
             rep.ob('K21d', f'value-type/{cl}', ok, f'{cl}.value() yields {sorted(vt)} but its mirror line {fld} accepts {sorted(field_type[fld])}', core.classes.classes[cl].rel)
     for cl in table:
@@ -1773,3 +1756,134 @@ def k27_complete_diagnostics(core, rep):
                f'and which part depends on the order in which the solver attempted the lines', _w(tr[0][0], tr[0][1]) if tr else _w(f))
     if n_seen < 3:
         raise AnalysisError('CLI solve(): the diagnostic getters are no longer all read into variables (anchor vanished)')
+
+
+def input_value_kinds(core, cls, depth=0):
+    """kinds of the values <cls>.value() can return: 'str' 'int' 'float' 'bool' 'NoneType' 'enum' (member looked up by
+    subscription of the enumeration, whose range is exactly the members) or 'unknown(<expr>)' for anything else"""
+    c, m = core.classes.find_method(cls, 'value')
+    if m is None:
+        return None
+    assigns = {}
+    for x in ast.walk(m):
+        if isinstance(x, ast.Assign) and len(x.targets) == 1 and isinstance(x.targets[0], ast.Name):
+            assigns.setdefault(x.targets[0].id, []).append(x.value)
+    params = {a.arg for a in m.args.args}
+
+    def kind(v, seen=()):
+        if isinstance(v, ast.Constant):
+            return {type(v.value).__name__}
+        if isinstance(v, ast.Call) and isinstance(v.func, ast.Name) and v.func.id in ('int', 'float', 'str', 'bool'):
+            return {v.func.id}
+        if isinstance(v, ast.Call) and isinstance(v.func, ast.Attribute) and v.func.attr in ('strip', 'replace', 'lower', 'upper', 'lstrip', 'rstrip', 'join', 'format'):
+            return {'str'}
+        if isinstance(v, ast.Call) and isinstance(v.func, ast.Attribute) and v.func.attr == 'value' and isinstance(v.func.value, ast.Call) \
+                and call_name(v.func.value) == 'super' and depth < 4:
+            parent = core.classes.classes[c.name].bases[0] if core.classes.classes[c.name].bases else None
+            pk = input_value_kinds(core, parent, depth + 1) if parent in core.classes.classes else None
+            return set(pk) if pk else {f'unknown({unparse(v, 40)})'}
+        if isinstance(v, ast.Subscript) and isinstance(v.value, ast.Attribute) and self_attr(v.value) == 'enum':
+            return {'enum'}
+        if isinstance(v, ast.Subscript) and isinstance(v.value, ast.Attribute) and v.value.attr == '__members__' and self_attr(v.value.value) == 'enum':
+            return {'enum'}
+        if isinstance(v, ast.Name):
+            if v.id in seen:
+                return set()
+            out = set()
+            if v.id in params and v.id != 'self':
+                out.add('str')          # the text handed in
+            for rhs in assigns.get(v.id, []):
+                out |= kind(rhs, seen + (v.id,))
+            return out or {f'unknown({v.id})'}
+        if isinstance(v, ast.IfExp):
+            return kind(v.body, seen) | kind(v.orelse, seen)
+        if isinstance(v, ast.JoinedStr):
+            return {'str'}
+        return {f'unknown({unparse(v, 40)})'}
+    kinds = set()
+    for r in ast.walk(m):
+        if isinstance(r, ast.Return) and r.value is not None:
+            kinds |= kind(r.value)
+    return kinds
+
+
+INPUT_KINDS = {'StringInput': {'str'}, 'SSNInput': {'str'}, 'RegexInput': {'str'}, 'BooleanInput': {'bool'}, 'IntegerInput': {'int'},
+               'FloatInput': {'float'}, 'EnumInput': {'enum', 'NoneType'}}
+
+
+def k11f_value_kinds(core, rep):
+    """every value() of an input class returns its declared kind on every return statement; enumeration members are
+    looked up by subscription (range = the members), not through attribute access (range = every attribute of the class)"""
+    n = 0
+    for cl, allowed in INPUT_KINDS.items():
+        if cl not in core.classes.classes:
+            continue
+        kinds = input_value_kinds(core, cl)
+        if kinds is None:
+            continue
+        n += 1
+        extra = sorted(k for k in kinds if k not in allowed)
+        rep.ob('K11f', f'value-kind/{cl}', not extra,
+               f'{cl}.value() can return {extra} where only {sorted(allowed)} is a validated value of that input type: lines would receive something that is not a {"/".join(sorted(allowed))}',
+               core.classes.classes[cl].rel)
+    if n < 5:
+        raise AnalysisError('input classes not found (anchor vanished)')
+    # valid() of the enumeration input uses the same lookup
+    c, m = core.classes.find_method('EnumInput', 'valid')
+    if m is not None and c.name == 'EnumInput':
+        looks = [x for x in ast.walk(m) if isinstance(x, ast.Subscript) and isinstance(x.value, ast.Attribute) and self_attr(x.value) == 'enum']
+        other = [x for x in ast.walk(m) if isinstance(x, ast.Call) and call_name(x) in ('hasattr', 'getattr') and any(self_attr(a) == 'enum' for a in x.args)]
+        calls_value = any(call_name(x) == 'value' and isinstance(x.func, ast.Attribute) and isinstance(x.func.value, ast.Name) and x.func.value.id == 'self' for x in calls_in(m))
+        rep.ob('K11f', 'enum-valid-looks-up-members', (bool(looks) or calls_value) and not other,
+               'EnumInput.valid() does not test membership by subscripting the enumeration: attribute tests accept names such as __doc__ or mro that are not members', f'{c.rel}:{m.lineno}')
+
+
+def k28_threshold_lookup_pure(core, rep):
+    """Form.threshold (and the methods of the form it calls) is a function of the form's own table, the name and the key:
+    it writes nothing (no attribute / subscript store, no mutator call on anything reachable from self or the class), so
+    an amount resolved for one form or status can never be handed to another."""
+    start = core.method('Form', 'threshold')
+    seen = {}
+    todo = [start]
+    while todo:
+        f = todo.pop()
+        if id(f) in seen:
+            continue
+        seen[id(f)] = f
+        for c in calls_in(f.node):
+            if isinstance(c.func, ast.Attribute) and isinstance(c.func.value, ast.Name) and c.func.value.id == 'self':
+                ci, m = core.classes.find_method(f.cls, c.func.attr) if f.cls else (None, None)
+                if m is not None:
+                    todo.append(core.func(ci.rel, ci.name, c.func.attr))
+    n = 0
+    # per-instance containers: self.X = {} / [] / dict() in the class's own __init__ and no class-level X
+    own = set()
+    ci = core.classes.classes.get(start.cls)
+    init = ci.methods.get('__init__') if ci else None
+    if init is not None:
+        for x in ast.walk(init):
+            if isinstance(x, ast.Assign) and len(x.targets) == 1 and self_attr(x.targets[0]) and self_attr(x.targets[0]) not in ci.attrs:
+                v = x.value
+                if isinstance(v, (ast.Dict, ast.List)) and not (v.keys if isinstance(v, ast.Dict) else v.elts) or \
+                        (isinstance(v, ast.Call) and call_name(v) in ('dict', 'list') and not v.args):
+                    own.add(self_attr(x.targets[0]))
+    for f in seen.values():
+        writes = []
+        for x in ast.walk(f.node):
+            if isinstance(x, (ast.Assign, ast.AugAssign, ast.AnnAssign, ast.Delete)):
+                ts = x.targets if isinstance(x, (ast.Assign, ast.Delete)) else [x.target]
+                for t in ts:
+                    for e in ([t] if not isinstance(t, (ast.Tuple, ast.List)) else t.elts):
+                        if isinstance(e, ast.Subscript) and self_attr(e.value) in own:
+                            continue          # a memo owned by this form instance alone
+                        if isinstance(e, (ast.Subscript, ast.Attribute)):
+                            writes.append(x)
+            if isinstance(x, ast.Call) and isinstance(x.func, ast.Attribute) and x.func.attr in MUTATORS + ('add', 'discard') \
+                    and not isinstance(x.func.value, ast.Name):
+                writes.append(x)
+            if isinstance(x, (ast.Global, ast.Nonlocal)):
+                writes.append(x)
+        n += 1
+        rep.ob('K28', f'{f.qual}/writes-nothing', not writes,
+               f'{f.qual}, on the path of every statutory-amount lookup, stores state ({unparse(writes[0], 70) if writes else ""}): a value resolved for one form or filing status can be returned for another', _w(f, writes[0] if writes else None))
+    rep.count('functions on the threshold lookup path', n)
